@@ -134,9 +134,50 @@ def check_assembly(ctx, case):
     ctx.op(asm.asm_op(rot_case), case, reply=r1)
 
 
+def check_long(ctx, case):
+    """a module kept in a large plasmid (a 140 kb BAC): typed alike wherever the file starts — in particular with the
+    origin inside a site, the spacer or an overhang (oracle only: the driver is not fed such lines)"""
+    enz = asm.enzyme(case["enz"])
+    M, _ = impl.generic_classes(enz)
+    unit = "ACGTTGCATGCAAGCT"
+    wd = case["module"] + (unit * (case["fill"] // len(unit) + 1))[:case["fill"]]
+    site = enz.site
+    if gen.circ_count(wd, site) != 1 or gen.circ_count(wd, gen.rc(site)) != 1:
+        ctx.note("long-skipped")
+        return
+    n = len(wd)
+    seen = []
+    for r in case["rots"]:
+        w2 = wd[r % n:] + wd[:r % n]
+        ent = M(impl.CircularRecord(impl.Seq(w2), id="bac"))
+        try:
+            if ent.is_valid():
+                seen.append((r, "valid", str(ent.overhang_start()), str(ent.overhang_end()), len(ent.target_sequence())))
+            else:
+                seen.append((r, "invalid"))
+        except Exception as e:  # noqa
+            seen.append((r, "exc:" + type(e).__name__))
+    if len({x[1:] for x in seen}) != 1:
+        ctx.fail("a {} module in a {} bp plasmid is typed differently depending on where the file starts: {}".format(
+            case["enz"], n, seen), case)
+    elif seen and seen[0][1] != "valid":
+        ctx.fail("a {} module in a {} bp plasmid with exactly the two sites is not accepted: {}".format(case["enz"], n, seen[0]), case)
+    ctx.note("module-in-a-140kb-plasmid")
+    ctx.case({"enz": case["enz"], "fill": case["fill"], "rots": case["rots"], "long": True}, nontrivial=True)
+
+
 def run(ctx):
     rng = ctx.rng
     kits = boot.kit_classes()
+    for _ in range(1 if ctx.tier == "quick" else 4):
+        enz = rng.choice([e for e in boot.supported_enzymes() if abs(e.ovhg) >= 3 and len(e.site) >= 6])
+        try:
+            mw, _d = gen.gen_module(rng, enz, gen.ovh(rng, enz), gen.ovh(rng, enz), blen=6)
+        except RuntimeError:
+            continue
+        ls = len(enz.site)
+        ctx.guard(check_long, {"enz": str(enz), "module": mw, "fill": 140000 + rng.randrange(16),
+                               "rots": [0, rng.randint(1, ls - 1), ls + 1, len(mw) + 70000, len(mw) + 139990]})
     # generic classes over every geometry
     for enz in asm.pick_enzymes(rng, ctx.budget(120, 3000)):
         M, V = impl.generic_classes(enz)
@@ -201,6 +242,8 @@ def run(ctx):
 
 
 def check_case(ctx, case):
+    if "fill" in case and "module" in case:
+        return ctx.guard(check_long, case)
     if "registry" in case:
         import extract
         reg = dict(extract.registries())[case["registry"]]
